@@ -280,7 +280,7 @@ func emlLogicCase(c *Ctx, input []byte, kind string) {
 		c.rep.Branches["skipped: panic or timeout (reported by C09)"]++
 		return
 	}
-	if err != nil && (strings.Contains(err.Error(), "failed to parse EML from reader") || strings.Contains(err.Error(), "failed to parse EML headers")) {
+	if err != nil && (strings.Contains(err.Error(), "failed to parse EML from reader") || strings.Contains(err.Error(), "failed to parse EML file") || strings.Contains(err.Error(), "failed to parse EML headers")) {
 		c.rep.Branches["skipped: refused before the body logic"]++
 		return
 	}
